@@ -5,7 +5,7 @@ use vcore::Ctx;
 fn main() {
     let mut ctx = Ctx::init("C03");
     ctx.rule(
-        "Cases are operation histories over a pool of up to 6 live treaps (new, from_item, insert_at with library or harness-chosen \
+        "Cases are operation histories over a pool of up to 6 live treaps (each up to 64 elements; a separate class of short histories on sequences of up to 1500 (quick) / 6000 (thorough) elements built by bulk insertions) (new, from_item, insert_at with library or harness-chosen \
          priority, remove_at, split_at 0..=len, split_by with a prefix-monotone id predicate, merge, first, last, collect, range-modify \
          via split/root_mut/merge, range-aggregate) with a priority policy (uniform, tiny alphabet with ties, increasing, decreasing, \
          alternating extremes) and a harness item whose aggregate is the ordered (id,value) list of the subtree and whose lazy \
